@@ -740,3 +740,9 @@ PROPS["C17"]["required_theorems"] += ["Failsafe.Props.C17." + t for t in ["core_
 # the breaker's small statistics / state functions the sequential breaker model transcribes (FACTS body text)
 PROPS["C03"]["facts"] = PROPS["C03"].get("facts", []) + ['bodies/circuitstats:.newStats', 'bodies/circuitstats:countingStats.recordFailure', 'bodies/circuitstats:countingStats.recordSuccess', 'bodies/circuitstats:countingStats.reset', 'bodies/circuitstats:stat.remove', 'bodies/circuitstats:stat.reset', 'bodies/circuitstats:timedStats.recordFailure', 'bodies/circuitstats:timedStats.recordSuccess', 'bodies/circuitstats:timedStats.reset']
 PROPS["C04"]["facts"] = PROPS["C04"].get("facts", []) + ['bodies/circuitbreaker:circuitBreaker.IsClosed', 'bodies/circuitbreaker:circuitBreaker.IsHalfOpen', 'bodies/circuitbreaker:circuitBreaker.IsOpen', 'bodies/circuitbreaker:circuitBreaker.Reset', 'bodies/circuitbreaker:circuitBreaker.close', 'bodies/circuitbreaker:circuitBreaker.halfOpen', 'bodies/circuitbreaker:circuitBreaker.open', 'bodies/circuitbreaker:circuitBreaker.tryAcquirePermit', 'bodies/circuitstates:.newOpenState', 'bodies/circuitstates:closedState.remainingDelay', 'bodies/circuitstates:closedState.tryAcquirePermit', 'bodies/circuitstates:halfOpenState.remainingDelay', 'bodies/circuitstates:openState.checkThresholdAndReleasePermit']
+
+# glue around the modelled cores (FACTS body text): limiter public methods, future getters, ExceededError, condition registration
+PROPS["C05"]["facts"] = PROPS["C05"].get("facts", []) + ['bodies/ratelimiter:rateLimiter.AcquirePermit', 'bodies/ratelimiter:rateLimiter.AcquirePermitWithMaxWait', 'bodies/ratelimiter:rateLimiter.AcquirePermits', 'bodies/ratelimiter:rateLimiter.AcquirePermitsWithMaxWait', 'bodies/ratelimiter:rateLimiter.ReservePermit', 'bodies/ratelimiter:rateLimiter.ReservePermits', 'bodies/ratelimiter:rateLimiter.Reset', 'bodies/ratelimiter:rateLimiter.TryAcquirePermit', 'bodies/ratelimiter:rateLimiter.TryAcquirePermits', 'bodies/ratelimiter:rateLimiter.TryReservePermit', 'bodies/ratelimiter:rateLimiter.TryReservePermits', 'bodies/ratelimiterstats:burstyStats.reset', 'bodies/ratelimiterstats:smoothStats.reset']
+PROPS["C15"]["facts"] = PROPS["C15"].get("facts", []) + ['bodies/result:executionResult.Done', 'bodies/result:executionResult.Error', 'bodies/result:executionResult.IsDone', 'bodies/result:executionResult.Result']
+PROPS["C02"]["facts"] = PROPS["C02"].get("facts", []) + ['bodies/retry:ExceededError.Error', 'bodies/retry:ExceededError.Is', 'bodies/retry:ExceededError.Unwrap']
+PROPS["C12"]["facts"] = PROPS["C12"].get("facts", []) + ['bodies/policy:BaseAbortablePolicy.AbortIf', 'bodies/policy:BaseAbortablePolicy.AbortOnErrorTypes', 'bodies/policy:BaseAbortablePolicy.IsConfigured', 'bodies/policy:BaseFailurePolicy.HandleIf', 'bodies/util:.AppliesToAny', 'bodies/util:.ErrorTypesMatch', 'bodies/util:.errorAs']
